@@ -4,7 +4,6 @@ fn main() {
     if prop == "C04" {
         vcore::runner::main_for(fam_cw3::tally::TallyFamily)
     } else {
-        eprintln!("INCONCLUSIVE: fam_cw3 does not serve '{prop}' yet");
-        std::process::exit(2);
+        vcore::runner::main_for(fam_cw3::multisig::MultisigFamily)
     }
 }
